@@ -129,6 +129,36 @@ def check(ctx):
             got = lib.count_range(b, st, b.return_blocks(), lib.bbs(errs))
             ctx.ob("polarity", "%s: %s peer gets Err" % (ty, "unlisted" if listed_ok else "listed"), got == (1, 1), where, "Err results on the denying edge: %s" % (got,))
 
+    # ------------------------------------------------------------------ enforcement sites: the trait method itself or a private wrapper around it
+    def direct_sites(b):
+        out = []
+        for st in b.call_sites(ENF):
+            e = b.site_expr(st)
+            out.append((st, e[2][1], render(e[2][0]) in ("self." + STATE, "^self." + STATE, "^*self." + STATE)))
+        return out
+    WRAP = {}     # npath -> (body, index of the parameter whose verdict it returns)
+    for _ in range(3):
+        for wb in prog.bodies(AB):
+            if wb.npath in WRAP or wb.parent or lm.is_api(wb):
+                continue
+            sites = direct_sites(wb) + [(st, wb.site_expr(st)[2][WRAP[n][1] - 1], render(wb.site_expr(st)[2][0]) == "self")
+                                        for n in list(WRAP) for st in wb.call_sites("^" + re.escape(n) + "$")]
+            for st, pe, recv_ok in sites:
+                if not recv_ok or pe[0] != "arg":
+                    continue
+                rr = lm.ret_exprs(wb)
+                tail = len(rr) == 1 and rr[0][2][0] == "call" and rr[0][2][3] == st.bb
+                okr = [x for k, x in result_defs(wb) if k == "Ok"]
+                cont, brk = lm.result_edges(wb, st)
+                if tail or (okr and cont and all(wb.must_pass_edges(o.bb, cont) for o in okr) and lib.count_range(wb, [0], wb.return_blocks(), [st.bb]) == (1, 1)):
+                    WRAP[wb.npath] = (wb, pe[1])
+                    ctx.use(wb)
+    if WRAP:
+        ctx.note("private enforcement wrappers: %s" % sorted(x.split("::")[-1] for x in WRAP))
+
+    def enf_sites(b):
+        return direct_sites(b) + [(st, b.site_expr(st)[2][WRAP[n][1] - 1], render(b.site_expr(st)[2][0]) == "self") for n in WRAP for st in b.call_sites("^" + re.escape(n) + "$")]
+
     # ------------------------------------------------------------------ the three hooks
     for fn, none_ok in (("handle_established_inbound_connection", False), ("handle_established_outbound_connection", False),
                         ("handle_pending_outbound_connection", True)):
@@ -137,7 +167,8 @@ def check(ctx):
         peer_expr = PP + "@Some.0" if none_ok else PP
         where = "%s:%d" % (b.file, b.line)
         rets = b.return_blocks()
-        calls = b.call_sites(ENF)
+        esites = enf_sites(b)
+        calls = [x[0] for x in esites]
         ctx.floor("enforce", fn + " enforce call", calls, 1, exact=True)
         res = result_defs(b)
         ctx.ob("enforce", fn + ": results are Ok / Err / `?` residual", all(k in ("Ok", "Err", "residual") for k, _ in res), where, str([k for k, _ in res]))
@@ -146,9 +177,9 @@ def check(ctx):
         none_edges = lib.switch_edges_on(b, r"^discr\(%s\)$" % re.escape(PP), {"None"}) if none_ok else set()
         if none_ok:
             ctx.ob("enforce", "floor:%s peer==None edge" % fn, len(none_edges) == 1, where, str(sorted(none_edges)), nontrivial=False)
-        for s in calls:
+        for s, pe, recv_ok in esites:
             e = b.site_expr(s)
-            ctx.ob("enforce", fn + ": enforces the list on the connection's peer", render(e[2][0]) == "self." + STATE and render(e[2][1]) == peer_expr, s.loc(), render(e)[:160])
+            ctx.ob("enforce", fn + ": enforces the list on the connection's peer", recv_ok and render(pe) == peer_expr, s.loc(), render(e)[:160])
             cont, brk = lm.result_edges(b, s)     # `?`, match Ok/Err, if let Err, is_err()
             ctx.ob("enforce", "floor:%s pass/deny edges" % fn, len(cont) == 1 and len(brk) == 1, s.loc(), "%s / %s" % (sorted(cont), sorted(brk)), nontrivial=False)
             for o in oks:
@@ -168,6 +199,15 @@ def check(ctx):
                 ctx.ob("enforce", fn + ": checked on every path", got == (1, 1), s.loc(), "enforce calls on all paths: %s" % (got,))
 
     # ------------------------------------------------------------------ list changes
+    # private queueing helpers: push their own parameter onto the close queue exactly once on every path
+    EMIT = {}
+    for hb in prog.bodies(AB):
+        if hb.parent or lm.is_api(hb) or hb.argc < 2:
+            continue
+        pb = [x for x in hb.call_sites(r"VecDeque::push_(back|front)$") if render(hb.site_expr(x)[2][0]) == "self." + QUEUE and hb.site_expr(x)[2][1][0] == "arg"]
+        if pb and lib.count_range(hb, [0], hb.return_blocks(), lib.bbs(pb)) == (1, 1):
+            EMIT[hb.npath] = (hb, pb, hb.site_expr(pb[0])[2][1][1])
+            ctx.use(hb)
     CHANGES = {"block_peer": ("insert", True), "disallow_peer": ("remove", True), "allow_peer": ("insert", False), "unblock_peer": ("remove", False)}
     for fn, (op, closes) in CHANGES.items():
         b = ctx.body(AB, r"^libp2p_allow_block_list::Behaviour::%s$" % fn)
@@ -183,7 +223,10 @@ def check(ctx):
                "set operations: %s" % [render(b.site_expr(s))[:100] for s in muts])
         got = lib.count_range(b, [0], rets, lib.bbs(muts))
         ctx.ob("list", fn + ": set updated on every path", got == (1, 1), where, "set operations on all paths: %s" % (got,))
-        pushes = [s for s in b.call_sites(r"VecDeque::push_(back|front)$") if render(b.site_expr(s)[2][0]) == "self." + QUEUE]
+        pushes = [(s, b.site_expr(s)[2][1]) for s in b.call_sites(r"VecDeque::push_(back|front)$") if render(b.site_expr(s)[2][0]) == "self." + QUEUE]
+        pushes += [(s, b.site_expr(s)[2][EMIT[n][2] - 1]) for n in EMIT for s in b.call_sites("^" + re.escape(n) + "$") if render(b.site_expr(s)[2][0]) == "self"]
+        queued_peer = dict((s, pe) for s, pe in pushes)
+        pushes = [s for s, _ in pushes]
         if not closes:
             continue
         ctx.floor("close", fn + " push_back", pushes, 1, exact=True)
@@ -195,17 +238,25 @@ def check(ctx):
         for _, t in sorted(changed):
             got = lib.count_range(b, [t], rets, lib.bbs(pushes))
             ctx.ob("close", "%s: %s peer queued for closing once" % (fn, verb), got == (1, 1), where, "close_connections.push_back on the changed edge: %s" % (got,))
-            takes = [s for s in b.call_sites(r"Option::take$") if render(b.site_expr(s)[2][0]) == "self." + WAKER]
-            wakes = b.call_sites(r"task::Waker::wake(_by_ref)?$")
-            got = lib.count_range(b, [t], rets, lib.bbs(takes))
+            # the wake-up may live in the function or inside the queueing helper it calls
+            wb, wstart, wrets = b, [t], rets
+            helper = [EMIT[strip_generics(b.call_name(s.term))] for s in pushes if strip_generics(b.call_name(s.term)) in EMIT]
+            if helper and not [s for s in b.call_sites(r"Option::take$") if render(b.site_expr(s)[2][0]) == "self." + WAKER]:
+                wb, wstart, wrets = helper[0][0], helper[0][0].succ[helper[0][1][0].bb], helper[0][0].return_blocks()
+            takes = [s for s in wb.call_sites(r"Option::take$") if render(wb.site_expr(s)[2][0]) == "self." + WAKER]
+            wakes = wb.call_sites(r"task::Waker::wake(_by_ref)?$")
+            got = lib.count_range(wb, wstart, wrets, lib.bbs(takes))
             ctx.ob("close", fn + ": stored waker consulted after queueing", got == (1, 1), where, "self.waker.take() on the changed edge: %s" % (got,))
+            b_, rets_ = b, rets
+            b, rets = wb, wrets
             for tk in takes:
                 some = lib.switch_edges_on_site(b, tk, {"Some"}, r"^discr\(std::option::Option::take\(")
                 got = lib.count_range(b, [x for _, x in some], rets, lib.bbs(wakes)) if some else None
                 ctx.ob("close", fn + ": stored waker woken", got == (1, 1), tk.loc(), "wake() on the Some(waker) edge: %s" % (got,))
+            b, rets = b_, rets_
         for s in pushes:
             e = b.site_expr(s)
-            ctx.ob("close", fn + ": the queued peer is the changed peer", render(e[2][1]) == PEER, s.loc(), render(e)[:140])
+            ctx.ob("close", fn + ": the queued peer is the changed peer", render(queued_peer[s]) == PEER, s.loc(), render(e)[:140])
 
     # ------------------------------------------------------------------ poll
     p = ctx.body(AB, NB + "poll$")
@@ -260,9 +311,10 @@ def check(ctx):
     fp, fq = set(), set()
     for b in prog.bodies(AB):
         for s in [x for f in set(PEERS.values()) for x in lib.field_mut_calls(b, f)]:
-            fp.add((b.npath, strip_generics(b.call_name(s.term)).split("::")[-1]))
+            fp.add((lm.root_name(b.npath), strip_generics(b.call_name(s.term)).split("::")[-1]))
         for s in lib.field_mut_calls(b, QUEUE):
-            fq.add((b.npath, re.sub(r"^(push|pop)_(back|front)$", r"\1", strip_generics(b.call_name(s.term)).split("::")[-1])))
+            for rt in (lm.entry_roots(prog, AB, b) if b.npath in EMIT else {lm.root_name(b.npath)}):
+              fq.add((rt, re.sub(r"^(push|pop)_(back|front)$", r"\1", strip_generics(b.call_name(s.term)).split("::")[-1])))
         if "Default" in b.npath or "default" in b.npath.split("::")[-1]:
             continue
         for f in sorted(set(PEERS.values()) | {QUEUE, STATE}):
